@@ -306,7 +306,7 @@ static void activate(slot_t *s)
 /* the registration happens on the manager thread some time after dispatch_activate returned */
 static void wait_registered(slot_t *s)
 {
-	for (int i = 0; i < 20000; i++) {
+	for (int i = 0; i < 300000; i++) {
 		if (*(volatile dispatch_unote_state_t *)&s->dr->du_state != 0) return;
 		msleep_us(100);
 	}
@@ -343,7 +343,7 @@ static void run_one(int id)
 	x->wmode = raw ? W_IDLE : (int)(vrt_rand() % 3);
 	x->hup_end = !raw && (vrt_rand() % 5) == 0;
 	x->nchunks = raw ? 2 : 6 + (int)(vrt_rand() % 12);
-	x->ack_timeout_ms = raw ? 1000 : 10000;
+	x->ack_timeout_ms = raw ? 3000 : 10000;
 	int sv[2];
 	if (x->pipe) { if (pipe(sv) != 0) { perror("pipe"); exit(3); } x->a = sv[0]; x->b = sv[1]; }
 	else {
@@ -362,7 +362,7 @@ static void run_one(int id)
 	int order[U_N], n = 0, late = -1;
 	if (raw) {
 		/* directed: the send buffer is full, so the WRITE source registers and STAYS armed (no EPOLLOUT event);
-		 * then the READ source registers on the same muxnote; then the peer sends chunks (acknowledged, 1 s each)
+		 * then the READ source registers on the same muxnote; then the peer sends chunks (acknowledged, 3 s each)
 		 * and, 100 ms later, starts to drain what we sent */
 		char buf[1024]; memset(buf, 'f', sizeof(buf));
 		for (int i = 0; i < 4096; i++) { ssize_t k = write(x->a, buf, sizeof(buf)); if (k < 0 && errno != EINTR) break; }
